@@ -21,7 +21,8 @@ import (
 
 // Engine holds the loaded program and all contracts.
 type Engine struct {
-	NoBatch    bool // solve every frame obligation on its own
+	BadPkgs    map[string][]string // initial packages left out by a tolerant Load, with their errors
+	NoBatch    bool                // solve every frame obligation on its own
 	mapValOnce sync.Once
 	mapValKeys map[string]bool // heap cells that can hold map values
 	Fset       *token.FileSet
@@ -60,6 +61,25 @@ func Load(dir string, patterns ...string) (*Engine, error) {
 		return nil, err
 	}
 	var errs []string
+	bad := map[string][]string{}
+	if Tolerant {
+		// initial packages that do not type-check are left out (and reported by the caller); an error in a
+		// dependency is still fatal
+		var good []*packages.Package
+		for _, p := range pkgs {
+			if len(p.Errors) > 0 || p.IllTyped {
+				for _, e := range p.Errors {
+					bad[p.PkgPath] = append(bad[p.PkgPath], e.Error())
+				}
+				if len(bad[p.PkgPath]) == 0 {
+					bad[p.PkgPath] = []string{"ill-typed (error in a dependency)"}
+				}
+				continue
+			}
+			good = append(good, p)
+		}
+		pkgs = good
+	}
 	packages.Visit(pkgs, nil, func(p *packages.Package) {
 		for _, e := range p.Errors {
 			errs = append(errs, e.Error())
@@ -83,8 +103,12 @@ func Load(dir string, patterns ...string) (*Engine, error) {
 	if len(pkgs) > 0 {
 		e.Fset = pkgs[0].Fset
 	}
+	e.BadPkgs = bad
 	return e, nil
 }
+
+// Tolerant makes Load leave out initial packages that do not type-check instead of failing.
+var Tolerant bool
 
 // BuildDep builds the SSA bodies of a dependency package (e.g. "io") so its
 // functions can be verified from GOROOT source.
